@@ -147,6 +147,19 @@ impl Engine for C05 {
                 out.push(Program { keys: bkeys, blobs: blobs.to_vec(), steps });
             }
         }
+        // keys whose buckets share an index sub-directory: what happens to one must not touch the others
+        {
+            let nkeys = super::c09::index_neighbours();
+            let n = nkeys.len();
+            for victim in 0..n {
+                for fully in [true, false] {
+                    let mut steps: Vec<Step> = (0..n).map(|i| Step { op: Op::Write(WriteSpec::simple(Some(i), i % 3)), fl: if i % 2 == 0 { Fl::Sync } else { Fl::Async } }).collect();
+                    steps.push(Step { op: Op::RemoveOpts { key: victim, fully }, fl: if victim % 2 == 0 { Fl::Async } else { Fl::Sync } });
+                    steps.push(Step { op: Op::Write(WriteSpec::simple(Some(victim), 1)), fl: Fl::Sync });
+                    out.push(Program { keys: nkeys.clone(), blobs: blobs.to_vec(), steps });
+                }
+            }
+        }
         // long histories on one key: the bucket grows past 8 KiB, 64 KiB and (thorough) 1 MiB
         for (variant, nsteps) in [(0usize, tier.pick(260usize, 1500usize)), (1, tier.pick(120, 400))] {
             let lkeys = vec!["long-history".to_string(), "bystander".to_string()];
